@@ -129,7 +129,7 @@ def handleImpl (ds : DState) (op : String) (args impl : List String) : Option (D
     | _, _ => op
   -- a mutation that the library carried out invalidates what was seen through handles before it
   let note (st : StoreSt) : StoreSt := if readOnlyOps.contains op then st else
-    { st with sinceDump := st.sinceDump ++ [(desc, ok)], lastDeleted := none, linkObs := if sessionOps.contains op then st.linkObs else [] }
+    { st with sinceDump := st.sinceDump ++ [(desc, ok)], lastDeleted := none, goneIds := [], linkObs := if sessionOps.contains op then st.linkObs else [] }
   let fin (st : StoreSt) (o : Out) : Option (DState × Out) := some ({ ds with store := st }, o)
   match op with
   | "fopen" | "fclose" | "freopen" | "fflush" | "fdrop" | "fisopen" | "fbytes" =>
@@ -153,9 +153,13 @@ def handleImpl (ds : DState) (op : String) (args impl : List String) : Option (D
   | "valid" =>
     -- C04: a handle to an entity that has just been deleted reports itself invalid — whichever route the handle was obtained by
     -- (the slot that named the victim, or another slot holding the same entity, e.g. fetched through a tag or a group)
-    let sameEntity : Bool := match st.lastDeleted, args[0]? with
+    -- … and every entity that went with it (sub-sections, sub-sources, the children of a block): the ids that the dump after the
+    -- delete no longer shows
+    let sameEntity : Bool := (match st.lastDeleted, args[0]? with
       | some v, some sl => v == sl || (match slotId st v, slotId st sl with | some a, some b => a == b && a.length == 36 | _, _ => false)
-      | _, _ => false
+      | _, _ => false) || (match args[0]? with
+      | some sl => (match slotId st sl with | some a => a.length == 36 && st.goneIds.contains a | none => false)
+      | none => false)
     fin st (judge s!"valid.{if ok then "ok" else "err"}" impl impl
       (if args.length == 2 && args[1]? == some "deleted" && sameEntity && impl != ["ok", "none"] then [("deleted_handle_reports_invalid", impl == ["ok", "0"])] else []))
   | "getlinkh" =>
@@ -218,7 +222,13 @@ def handleImpl (ds : DState) (op : String) (args impl : List String) : Option (D
       let tag := if since.isEmpty then "dump.first" else if since.all (fun e => !e.2) then "dump.after_reject:" ++ ",".intercalate (since.map (·.1))
         else if since.all (fun e => sessionOps.contains e.1 && e.2) then "dump.after_reopen"
         else if since.length == 1 && since.all (fun e => e.1.startsWith "del." && e.2) then "dump.after_delete" else "dump.after_ops"
-      fin { st with lastDump := some d, sinceDump := [], everSeen := remember st.everSeen d } (judge tag impl impl (idRules ++ histRules))
+      let gone : List String := match st.lastDump with
+        | some prev => if since.length == 1 && since.all (fun e => e.1.startsWith "del." && e.2) then
+            let afterIds := d.map (·.id)
+            (prev.filter fun r => r.id.length == 36 && !afterIds.contains r.id).map (·.id)
+          else []
+        | none => []
+      fin { st with lastDump := some d, sinceDump := [], goneIds := gone, everSeen := remember st.everSeen d } (judge tag impl impl (idRules ++ histRules))
   | _ => none
 
 /-- compare the model's prediction with what the library answered -/
